@@ -116,12 +116,12 @@ def r3_loops(ctx, f, rep):
     # all submit_after sites by variant and function
     sites = {}
     for b in f.bodies:
-        if not b.nname.startswith('Foca::'):
-            continue
+        if not b.nname.startswith('Foca::') or f.is_unknown_helper(b):
+            continue        # (helpers that do not exist on the reference tree are seen inlined in their callers)
         for p in ctx.paths(f, b, 'none'):
             for e in p.calls():
                 if e['decl'] == 'runtime::Runtime::submit_after':
-                    sites.setdefault(q.variant_name(e['args'][1]), set()).add((b.nname, e['block']))
+                    sites.setdefault(q.variant_name(e['args'][1]), set()).add((b.nname, e['tblock']))
     want = {'ProbeRandomMember': {'Foca::become_connected', 'Foca::probe_random_member'},
             'SendIndirectProbe': {'Foca::probe_random_member'}, 'ChangeSuspectToDown': {'Foca::probe_random_member'},
             'RemoveDown': {'Foca::handle_apply_summary'},
